@@ -276,6 +276,9 @@ def evaluate(case: dict) -> list[Violation]:
         r = case.get("type_ring")
         if r:
             viols.extend(_eval_type_ring(r, conv, module))
+        fam = case.get("family")
+        if fam:
+            viols.extend(_eval_family(fam, utils, module))
     finally:
         drop_core(pkg_name)
         sys.modules.pop(modname, None)
@@ -420,6 +423,57 @@ def _eval_graph(g: dict, conv, utils, module) -> list[Violation]:
         want = ref(0)
         if out != want:
             viols.append(Violation(("serializer_differs_from_reference", g.get("style", "")), f"out={out!r} want={want!r}"[:800]))
+    return viols
+
+
+def _eval_family(f: dict, utils, module) -> list[Violation]:
+    """Two mutually referencing classes written the natural way: FChild.parent: Optional["FParent"] (defined first),
+    FParent.children: List[FChild], FParent.by_name: Dict[str, FChild], FParent.rows: List[Dict[str, "FParent"]].
+    f = {"n_children", "back_pointer", "rows_self", "meta"}; with back_pointer / rows_self the instance graph is cyclic."""
+    ns_c, ns_p = {}, {}
+    if f.get("meta"):
+        ns_c["Meta"] = type("Meta", (), {"key_transform_with_load": {"childName": "name", "parentRef": "parent"}, "key_transform_with_dump": {"name": "childName", "parent": "parentRef"}})
+        ns_p["Meta"] = type("Meta", (), {"key_transform_with_load": {"parentName": "name", "kids": "children", "byName": "by_name", "rows": "rows"},
+                                         "key_transform_with_dump": {"name": "parentName", "children": "kids", "by_name": "byName", "rows": "rows"}})
+    Child = dataclasses.make_dataclass("FChild", [("name", str), ("parent", typing.Optional["FParent"], dataclasses.field(default=None))], namespace=ns_c)
+    Child.__module__ = module.__name__
+    module.FChild = Child
+    Parent = dataclasses.make_dataclass("FParent", [("name", str), ("children", typing.List[Child], dataclasses.field(default_factory=list)),
+                                                    ("by_name", typing.Dict[str, Child], dataclasses.field(default_factory=dict)),
+                                                    ("rows", typing.List[typing.Dict[str, "FParent"]], dataclasses.field(default_factory=list))], namespace=ns_p)
+    Parent.__module__ = module.__name__
+    module.FParent = Parent
+    module.typing = typing
+    par = Parent(name="p")
+    kids = [Child(name=f"c{i}") for i in range(f["n_children"])]
+    par.children = list(kids)
+    par.by_name = {k.name: k for k in kids[:2]}
+    if f["back_pointer"]:
+        for k in kids:
+            k.parent = par
+    other = Parent(name="q")
+    par.rows = [{"self": par} if f["rows_self"] else {"other": other}]
+    shape = ("back" if f["back_pointer"] else "noback") + ("_rowsself" if f["rows_self"] else "")
+    try:
+        out = utils.DataclassSerializer.serialize(par)
+    except RecursionError:
+        return [Violation(("serializer_recursion_error", "family_" + shape), json.dumps(f))]
+    except Exception as e:
+        return [Violation(("serializer_raised", type(e).__name__, "family_" + shape), f"{e!r}"[:500])]
+    viols = []
+    try:
+        json.dumps(out)
+    except Exception as e:
+        viols.append(Violation(("serializer_output_not_json", "family_" + shape), f"{e!r} out={out!r}"[:500]))
+        return viols
+    if not (f["back_pointer"] or f["rows_self"]):
+        rc = {"name": "childName"} if f.get("meta") else {}
+        rp = {"name": "parentName", "children": "kids", "by_name": "byName", "rows": "rows"} if f.get("meta") else {}
+        kid = lambda k: {rc.get("name", "name"): k.name}  # noqa: E731
+        want = {rp.get("name", "name"): "p", rp.get("children", "children"): [kid(k) for k in kids], rp.get("by_name", "by_name"): {k.name: kid(k) for k in kids[:2]},
+                rp.get("rows", "rows"): [{"other": {rp.get("name", "name"): "q", rp.get("children", "children"): [], rp.get("by_name", "by_name"): {}, rp.get("rows", "rows"): []}}]}
+        if out != want:
+            viols.append(Violation(("serializer_differs_from_reference", "family"), f"out={out!r} want={want!r}"[:800]))
     return viols
 
 
@@ -626,6 +680,7 @@ def _strategies():
         "steps": st.lists(step(), min_size=1, max_size=5),
         "graph": st.one_of(st.none(), graph()),
         "type_ring": st.one_of(st.none(), type_ring()),
+        "family": st.one_of(st.none(), st.fixed_dictionaries({"n_children": st.integers(1, 3), "back_pointer": st.booleans(), "rows_self": st.booleans(), "meta": st.booleans()})),
     })
     return case
 
@@ -646,6 +701,11 @@ def classify(case: dict) -> tuple[bool, list[str]]:
     if len(set(names)) < len(names):
         labs.append("name_reused_in_history")
     labs.append(f"steps_{len(case['steps'])}")
+    fam = case.get("family")
+    if fam:
+        labs.append("family_" + ("cyclic" if fam["back_pointer"] or fam["rows_self"] else "acyclic"))
+        if fam["back_pointer"] or fam["rows_self"]:
+            nt = True
     r = case.get("type_ring")
     if r:
         labs.append(f"type_ring_{r['n']}")
